@@ -72,6 +72,7 @@ class TheCheck(Check):
             for f in os.listdir(self.tmp):
                 os.unlink(os.path.join(self.tmp, f))
             os.rmdir(self.tmp)
+        self.long_hold(impl_dir)
         self.extra_cov = {"calls_that_did_not_return": self.noreturn[:20], "n_did_not_return": len(self.noreturn),
                           "functions_exercised": len(self.fn_seen), "functions_with_skeleton": len(self.lock.names) if self.lock else 0,
                           "unbalanced_skeletons": self.unbalanced, "max_fault_position": self.max_k}
@@ -152,8 +153,30 @@ class TheCheck(Check):
         if self.noreturn:
             log("  note: %d calls did not return (crash/watchdog inside the call), e.g. %s" % (len(self.noreturn), self.noreturn[0]))
 
+    def long_hold(self, impl_dir):
+        """the owner keeps the lock across 1 (quick: also 3) waiter time-outs of Q_MUTEX_ENTER"""
+        lines = lc.hold_scenarios(self.tier)
+        try:
+            res = lc.run_hold(impl_dir, lines)
+        except vlib.BuildError as e:
+            self.violation("build", "build-failure", str(e)[:2000], {"error": str(e)[:4000]})
+            return
+        self.evals += len(res)
+        self.cov["streams"]["long-hold"] = {"ops": len(res), "forced_unlock_attempts_seen": sum(int(r.get("forced", 0) or 0) for _, r, _ in res)}
+        seen = set()
+        for line, r, raw in res:
+            self.nontrivial.add(("hold", line, r.get("forced"), r.get("t0_depth"), r.get("probe")))
+            j = lc.judge_hold_c14(line, r)
+            if j:
+                key = "long-hold:" + ("owner-depth" if r.get("t0_depth") not in (None, "0") else "waiter-or-probe")
+                if key not in seen:
+                    seen.add(key)
+                    self.violation("property", key, j, {"stream": "long-hold", "ops": [line], "first_bad_op": line, "impl_line": raw})
+
     # ---------------------------------------------------------------- oracle
     def judge(self, op, line):
+        if op.startswith("hold "):
+            return lc.judge_hold_c14(op, lc.parse_result(line))
         r = lc.parse_result(line)
         if "lockdelta" not in r:
             return "malformed harness result: " + line
@@ -193,6 +216,14 @@ class TheCheck(Check):
                 print("  correspondence:", c.get("detail"))
             return 0 if ok and not rp.get("correspondence") else 1
         impl_dir = vlib.build_impl("plain")
+        if ops and ops[0].startswith("hold "):
+            bad = False
+            for line, r, raw in lc.run_hold(impl_dir, ops):
+                j = lc.judge_hold_c14(line, r)
+                print("%s %s\n     impl  : %s\n     model : owner depth 0, waiter completes, probe ok (Props.C14.enter_leave_model)%s" % (
+                    "!!" if j else "  ", line, raw, ("\n     oracle: " + j) if j else ""))
+                bad |= bool(j)
+            return 1 if bad else 0
         hbin = vlib.build_harness(self.harness, impl_dir, "plain", self.wraps)
         tmp = os.path.join(vlib.BUILD, "tmp-replay-%d" % os.getpid())
         os.makedirs(tmp, exist_ok=True)
